@@ -478,6 +478,26 @@ STRUCTURAL = {
 }
 
 
+_CTOR_ONLY = {}
+
+
+def _ctor_only(repo, name: str) -> bool:
+    """True if every call `<x>.<name>(...)` in the package sits in an `__init__` of a module class (or in a method that is itself only
+    called from there): such a method never runs with a View as its receiver."""
+    key = (id(repo), name)
+    if key in _CTOR_ONLY:
+        return _CTOR_ONLY[key]
+    _CTOR_ONLY[key] = False   # cycles: not constructor-only
+    sites = []
+    for f in repo.all_functions():
+        for c in ast.walk(f.node):
+            if isinstance(c, ast.Call) and isinstance(c.func, ast.Attribute) and c.func.attr == name:
+                sites.append(f)
+    ok = bool(sites) and all((f.name == "__init__" and f.cls != "View") or (f.cls and f.name != name and _ctor_only(repo, f.name)) for f in sites)
+    _CTOR_ONLY[key] = ok
+    return ok
+
+
 def _confine(repo, col, R="R-C11-confine"):
     n_table = 0
     for cls in ("Module", "Network"):
@@ -541,8 +561,8 @@ def _confine(repo, col, R="R-C11-confine"):
                 key = (name, "column" if what == "column" and not (s.key.op == "const" and s.key.name == "controlled_by_param") else
                        ("controlled_by_param" if what == "column" else kind))
                 reason = STRUCTURAL.get(key) or STRUCTURAL.get((name, "*"))
-                if reason is None and name == "_gather_channels_from_constituents":
-                    reason = None
+                if reason is None and _ctor_only(repo, name):
+                    reason = "called from the constructors of the module classes only: the receiver is the freshly built module, never a view"
                 col.add(R, fi, f"{name}: {txt}", "DISCHARGED" if reason else "VIOLATED",
                         f"structural site: {reason}" if reason else
                         f"`{txt}` writes a whole {what} of the base {kind} table from a method that can be called on a View",
